@@ -97,9 +97,22 @@ func init() {
 			emit := func(defs, veneers, calls string) {
 				fmt.Fprintf(out, "%s\t%s\t%s\t%s\t%s\n", f[0], defs, veneers, f[3], calls)
 			}
-			sp, err := c09ParseSpec(f[3], f[4])
-			if err != nil {
-				return err
+			sp := &c09Spec{}
+			if args["doc"] == "1" {
+				// C14: the last column is a JSON document
+				doc, err := parseJV([]byte(f[4]))
+				if err != nil {
+					return err
+				}
+				for _, v := range c14DocVariants(doc, 0) {
+					emit(f[1], f[2], v.json())
+				}
+			} else {
+				var err error
+				sp, err = c09ParseSpec(f[3], f[4])
+				if err != nil {
+					return err
+				}
 			}
 			// calls
 			for i := range sp.Calls {
@@ -175,4 +188,39 @@ func init() {
 		}
 		return nil
 	})
+}
+
+// c14DocVariants: the document with one member removed / one array shortened (two levels deep)
+func c14DocVariants(d JV, depth int) []JV {
+	var out []JV
+	switch d.K {
+	case 'o':
+		for i, e := range d.O {
+			c := d.clone()
+			c.O = append(append([]JKV{}, c.O[:i]...), c.O[i+1:]...)
+			out = append(out, c)
+			if depth < 3 {
+				for _, v := range c14DocVariants(e.V, depth+1) {
+					c := d.clone()
+					c.O[i].V = v
+					out = append(out, c)
+				}
+			}
+		}
+	case 'a':
+		if len(d.A) > 1 {
+			out = append(out, jArr(d.A[:1]...))
+			out = append(out, jArr(d.A[1:]...))
+		}
+		if depth < 3 {
+			for i, e := range d.A {
+				for _, v := range c14DocVariants(e, depth+1) {
+					c := d.clone()
+					c.A[i] = v
+					out = append(out, c)
+				}
+			}
+		}
+	}
+	return out
 }
